@@ -29,6 +29,8 @@ type e2eAttempt struct {
 	holdAfter   int // >=0: number of packets sent before waiting for gate
 	slowHandler time.Duration
 	scribble    bool
+	// firstByte: the packet carrying events[i] starts with this byte instead of the OK byte 0x00
+	firstByte map[int]byte
 }
 
 type e2eResult struct {
@@ -129,7 +131,11 @@ func (env *e2eEnv) run(n int, a e2eAttempt, baseline int) (res e2eResult) {
 			if a.holdAfter >= 0 && i == a.holdAfter {
 				acts = append(acts, action{kind: "gate", gate: gate})
 			}
-			acts = append(acts, action{kind: "event", data: e})
+			if fb, ok := a.firstByte[i]; ok {
+				acts = append(acts, action{kind: "raw", data: append([]byte{fb}, e...)})
+			} else {
+				acts = append(acts, action{kind: "event", data: e})
+			}
 		}
 		done := make(chan struct{})
 		close(done)
@@ -345,6 +351,16 @@ func e2eResume(c *Ctx) {
 				r.PickS("txXid", "ddl", "autoRows"), r.PickS("txCommit", "txRollback", "txXid"), "restart", r.PickS("txXid", "ddl"), "txCommit"}
 		}
 		h := genHistory(r, cfg, o)
+		if k%4 >= 2 {
+			// the first file is the one named "" (a dump started without naming a file): the end labels of its
+			// transactions are {"", N}, and resuming at one of them must ask for exactly {"", N}
+			renameFiles(h, func(i int) string {
+				if i == 1 {
+					return ""
+				}
+				return fmt.Sprintf("bin.%06d", i)
+			})
+		}
 		h.encode(c)
 		f0, o0 := startOf(h)
 		D := strs(h.expectedTxVals(c, h.txs, f0, uint32(o0)))
@@ -370,7 +386,7 @@ func e2eResume(c *Ctx) {
 			if len(res.dumps) == 1 {
 				got = res.dumps[0]
 			}
-			c.R.Count(fmt.Sprintf("e2e-resume/big%v/%s", k%2 == 0, h.kinds[tx.unit]))
+			c.R.Count(fmt.Sprintf("e2e-resume/big%v/emptyfirst%v/%s", k%2 == 0, k%4 >= 2, h.kinds[tx.unit]))
 			desc := fmt.Sprintf("e2e resume after tx %d at %s:%d cfg=%s units=%v", ti, tx.nextFile, tx.next, cfg, h.kinds)
 			if got.File != tx.nextFile || got.Pos != tx.next {
 				c.R.Add(vh.Mismatch{Kind: "spec", What: "e2e resume: the dump request does not ask for the end label", Case: desc, Impl: fmt.Sprintf("%+v", res.dumps), InDomain: true})
